@@ -87,7 +87,7 @@ class BaseGHE:
             # find where to stop in sts
             i = 0
             value = log_time_sts[i]
-            while value <= min_log_time_lts:
+            while value < min_log_time_lts:
                 i += 1
                 value = log_time_sts[i]
             log_time = log_time_sts[0:i] + log_time_lts
